@@ -244,7 +244,12 @@ func (p *Element) SetBytesUncompressed(buf []byte, trusted bool) error {
 	}
 
 	var x fp.Element
-	x.SetBytes(buf[:coordinateSize])
+	if trusted {
+		x.SetBytes(buf[:coordinateSize])
+	} else if err := x.SetBytesCanonical(buf[:coordinateSize]); err != nil {
+		// untrusted input: X must be a canonical field encoding (< p), as in the compressed form
+		return fmt.Errorf("invalid uncompressed point: %s", err)
+	}
 
 	var y fp.Element
 	// point in curve & subgroup check
